@@ -13,7 +13,9 @@ package execext
 //@ func RunCommand
 //@   init interpErr := nil
 //@   blocks
-//@   loop 1 invariant len(opts.PosixOpts) >= 1 && opts.PosixOpts[len(opts.PosixOpts) - 1] == "e"   [C03]
+// errexit is switched on HERE, for every caller: commands, but also preconditions, status checks and dynamic
+// variables, whose scripts are judged by their first failing statement, not by their last one
+//@   loop 1 invariant len(opts.PosixOpts) >= 1 && opts.PosixOpts[len(opts.PosixOpts) - 1] == "e"   [C03,C13,C04,C05]
 //@   modifies heap
 //@   preserves $RUNDATA
 // The outcome of the interpreter IS the outcome of the command: the user's command is what is run last, and
@@ -23,6 +25,13 @@ package execext
 // the command writes straight into the writers it was given (the group / prefix writers that collect its output):
 // nothing sits in between that could drop, delay or reorder bytes - not after a cancellation either
 //@   site interp.StdIO#0 requires arg0 == opts.Stdin && arg1 == opts.Stdout && arg2 == opts.Stderr               [C17,C02]
+// ... and it is RunCommand's own call of the interpreter, on the parsed user command, whose return ends the call:
+// when RunCommand returns the command has ended (the deferred commands of a task, the next command and the callers
+// of the task all start "after the command": a RunCommand that came back while the command was still running -
+// handing it to a goroutine and returning on cancellation - would let them overlap with it)
+//@   init lastRun := nil
+//@   site (*Runner).Run#0 ghost lastRun := payload(arg2)
+//@   ensures result == nil ==> lastRun == p                                                           [C02,C03,C14,C17]
 //@   ensures result == nil ==> interpErr == nil                                                       [C03,C04,C13]
 //@   ensures interpErr != nil ==> result == interpErr                                                 [C03,C04]
 
@@ -30,9 +39,10 @@ package execext
 // when the program has exited: a command has "completely finished" when RunCommand returns - nothing it started is
 // still running when the next command, or the caller of the task, goes on
 //@ ghost var stdHandler ref scratch
+//@ ghost var lastRun ref scratch
 //@ func execHandler
 //@   site interp.DefaultExecHandler#0 ghost stdHandler := result
-//@   ensures result == stdHandler                                                                     [C02,C03,C17]
+//@   ensures result == stdHandler                                                                     [C02,C03,C14,C17]
 
 // ---- C16: expanding a task dir or include location never indexes an empty word list -----------------------
 //@ func ExpandLiteral
